@@ -130,6 +130,9 @@ def check(ctx: Ctx):
     from ..rules import empty as _empty
 
     support.compose(ctx, _empty.check_cdist, keep=("EMPTY", "INDEX"), site_filter=lambda s_: s_.endswith(":only-emptiness") or s_.endswith(":unfiltered"))
+    from ..rules import support as _sup_r12
+
+    _sup_r12.check_named_params_forwarded(ctx, "droplets.droplet_tracks.DropletTrackList.from_storage", "from_emulsion_time_course")
     ctx.expect("ACCESSOR", 4)
     ctx.expect("METRIC", 4)
     ctx.expect("STRICT", 1)
